@@ -31,8 +31,11 @@ func runPlacement(c *Ctx) {
 	rand.Seed(int64(c.Seed) + 12345)
 	reps := c.Pick(2, 12)
 
-	check := func(conn *cluster.Conn, alloc *storage.Allocator, R, P int, afterChange bool) {
-		members := conn.NodeIds()
+	check := func(conn *cluster.Conn, alloc *storage.Allocator, R, P int, afterChange bool, truth []uint64) {
+		members := append([]uint64{}, conn.NodeIds()...) // copy: the harness must not sort the callee's slice
+		if truth != nil {
+			members = append([]uint64{}, truth...) // joined minus left, as the harness recorded it
+		}
 		sort.Slice(members, func(i, j int) bool { return members[i] < members[j] })
 		got, addrs := alloc.VerifPlacement(uint(P), uint(R))
 		var ps []string
@@ -132,7 +135,7 @@ func runPlacement(c *Ctx) {
 					}
 					alloc := storage.NewAllocator(conn)
 					c.OpLocal("fresh N=%d R=%d P=%d", N, R, P)
-					check(conn, alloc, R, P, false)
+					check(conn, alloc, R, P, false, nil)
 					alloc.Stop()
 					c.End()
 				}
@@ -160,7 +163,7 @@ func runPlacement(c *Ctx) {
 				R, P := 1+r.Intn(8), []int{1, 2, 7, 64}[r.Intn(4)]
 				c.OpLocal("place R=%d P=%d", R, P)
 				if len(members) > 0 {
-					check(conn, alloc, R, P, changed)
+					check(conn, alloc, R, P, changed, members)
 				}
 			case k < 8 && len(members) > 1:
 				i := r.Intn(len(members))
@@ -176,7 +179,7 @@ func runPlacement(c *Ctx) {
 				changed = true
 			}
 			// the membership table itself must be what was added minus what was removed
-			got := conn.NodeIds()
+			got := append([]uint64{}, conn.NodeIds()...)
 			sort.Slice(got, func(i, j int) bool { return got[i] < got[j] })
 			want := append([]uint64{}, members...)
 			sort.Slice(want, func(i, j int) bool { return want[i] < want[j] })
